@@ -281,7 +281,7 @@ CLAIMED["C14"] = {
             "the error is returned once, exactly commands 0..k-1 were started, each non-detached one is waited for exactly once, at "
             "every such wait the parent holds no pipe end of the attempt (except the shared-stderr reader in Pipeline::capture: "
             "c14_capture_keeps_stderr_reader proves that exception is real -- recorded as a known finding), and nothing of the attempt is "
-            "held on return; c14_nothing_held_at_waits, c14_cleanup_waits_with_nothing_held (for arbitrary ends owned by the started Popens, e.g. a command's own stderr pipe: release all, then wait -- genuine defect F14 repaired by fix e678f50); c14_communicate_never_waits.",
+            "held on return; c14_nothing_held_at_waits, c14_cleanup_waits_with_nothing_held_unstarted (the same with ends still sitting in the commands never started, e.g. the pipeline's own stdout file being a caller-made pipe -- run on the real code as the ring=1 cases), c14_cleanup_waits_with_nothing_held (for arbitrary ends owned by the started Popens, e.g. a command's own stderr pipe: release all, then wait -- genuine defect F14 repaired by fix e678f50); c14_communicate_never_waits.",
     "note": PIPE_NOTE + " Known finding: C14 capture-start-failure-keeps-stderr-reader-while-waiting.",
 }
 NOT_CLAIMED = {}
